@@ -9,7 +9,8 @@ use serde_json::{json, Value};
 pub fn items(evs: &[Ev]) -> Vec<Value> {
     // a command that ran into the opcode budget may have produced an enormous response: the
     // first events are enough to see that it differs from the specified one
-    let evs = if evs.len() > 3000 { &evs[..3000] } else { evs };
+    let cap = if matches!(evs.last(), Some(Ev::Budget)) { 200 } else { 3000 };
+    let evs = if evs.len() > cap { &evs[..cap] } else { evs };
     let mut out: Vec<Value> = vec![];
     let mut cur: Option<String> = None;
     fn flush(out: &mut Vec<Value>, cur: &mut Option<String>) {
